@@ -4,6 +4,7 @@ import (
 	"bytes"
 	"context"
 	"fmt"
+	"sort"
 	"strings"
 	"time"
 
@@ -19,7 +20,7 @@ import (
 
 func init() { shapes.Light = true }
 
-const rule = "(a) the shape enumeration of C09 (reduced: depth 2 quick / 3 thorough, all 64 override maps at depth 1) with the crypto oracle: every value the filter encrypted is stripped of its prefix, base64url-decoded, unmarshalled as BlobInfo and decrypted with the wrapper in force, every HMAC is recomputed with x/crypto hkdf + crypto/hmac under the key/salt/info in force. (b) key contexts: values {empty, ascii, non-UTF-8, 200 bytes} x {string, []byte} x {encrypt, hmac} x filter salt/info {nil, set} x event {plain, EventWrapperInfo with id only / id+salt / id+info / id+both / empty id}: per-event wrapper (derivation checked for determinism and for differing between ids), per-event salt/info precedence, equal inputs give equal digests. (c) BFS over all histories up to depth 3 (4 thorough) of {Rotate(any non-empty subset of wrapper/salt/info), rotation payload (same subsets), event, EventWrapperInfo event}: every event after a rotation verifies under the model's new material. (d) Rotate || Process || Process, all schedules within the preemption bound under the race detector: every protected value verifies wholly under the old or the new key."
+const rule = "(a) the shape enumeration of C09 (reduced: depth 2 quick / 3 thorough, all 64 override maps at depth 1) with the crypto oracle: every value the filter encrypted is stripped of its prefix, base64url-decoded, unmarshalled as BlobInfo and decrypted with the wrapper in force, every HMAC is recomputed with x/crypto hkdf + crypto/hmac under the key/salt/info in force. (b) key contexts: values {empty, ascii, non-UTF-8, 200 bytes} x {string, []byte} x {encrypt, hmac} x filter salt/info {nil, set} x event {plain, EventWrapperInfo with id only / id+salt / id+info / id+both / empty id; the EventWrapperInfo payload also carries the protected fields inside a struct value, a pointer, slices of structs and of pointers, nested pointers and string slices}: per-event wrapper (derivation checked for determinism and for differing between ids), per-event salt/info precedence, equal inputs give equal digests. (c) BFS over all histories up to depth 3 (4 thorough) of {Rotate(any non-empty subset of wrapper/salt/info), rotation payload (same subsets), event, EventWrapperInfo event}: every event after a rotation verifies under the model's new material. (d) Rotate || Process || Process, all schedules within the preemption bound under the race detector: every protected value verifies wholly under the old or the new key."
 
 var assumptions = []string{
 	"AES-GCM, HKDF and HMAC from the standard / x/crypto libraries are the independent oracles",
@@ -37,6 +38,54 @@ type ewPayload struct {
 	HS         string `class:"sensitive,hmac-sha256"`
 	HB         []byte `class:"sensitive,hmac-sha256"`
 	HS2        string `class:"secret,hmac-sha256"`
+	// the same key material must reach every container the walk descends into
+	Nest   ewNest
+	PNest  *ewNest
+	Slice  []ewNest
+	PSlice []*ewNest
+	Strs   []string `class:"sensitive,encrypt"`
+	HStrs  []string `class:"secret,hmac-sha256"`
+}
+
+type ewNest struct {
+	S  string `class:"sensitive,encrypt"`
+	HS string `class:"secret,hmac-sha256"`
+	In *ewNest
+}
+
+func newEwPayload(id string, salt, info []byte, val string) *ewPayload {
+	n := func() ewNest { return ewNest{S: val, HS: val, In: &ewNest{S: val, HS: val}} }
+	n1, n2 := n(), n()
+	return &ewPayload{id: id, salt: salt, info: info, S: val, B: []byte(val), HS: val, HB: []byte(val), HS2: val,
+		Nest: n(), PNest: &n1, Slice: []ewNest{n(), n()}, PSlice: []*ewNest{&n2}, Strs: []string{val, val}, HStrs: []string{val}}
+}
+
+// nested lists the (name, encrypted value, hmac value) triples of the containers of an ewPayload.
+func (p *ewPayload) nested() (enc, mac map[string]string) {
+	enc, mac = map[string]string{}, map[string]string{}
+	var add func(name string, n *ewNest)
+	add = func(name string, n *ewNest) {
+		if n == nil {
+			return
+		}
+		enc[name+".S"], mac[name+".HS"] = n.S, n.HS
+		add(name+".In", n.In)
+	}
+	add("Nest", &p.Nest)
+	add("PNest", p.PNest)
+	for i := range p.Slice {
+		add(fmt.Sprintf("Slice[%d]", i), &p.Slice[i])
+	}
+	for i := range p.PSlice {
+		add(fmt.Sprintf("PSlice[%d]", i), p.PSlice[i])
+	}
+	for i, v := range p.Strs {
+		enc[fmt.Sprintf("Strs[%d]", i)] = v
+	}
+	for i, v := range p.HStrs {
+		mac[fmt.Sprintf("HStrs[%d]", i)] = v
+	}
+	return
 }
 
 func (p *ewPayload) EventId() string  { return p.id }
@@ -68,9 +117,11 @@ func keyBytes(w *aead.Wrapper) []byte {
 func verify(out interface{}, val string, base keyMaterial, evID string, evSalt, evInfo []byte) string {
 	var s, hs, hs2 string
 	var b, hb []byte
+	moreEnc, moreMac := map[string]string{}, map[string]string{}
 	switch p := out.(type) {
 	case *ewPayload:
 		s, b, hs, hb, hs2 = p.S, p.B, p.HS, p.HB, p.HS2
+		moreEnc, moreMac = p.nested()
 	case *plainPayload:
 		s, b, hs, hb, hs2 = p.S, p.B, p.HS, p.HB, p.HS2
 	default:
@@ -97,7 +148,12 @@ func verify(out interface{}, val string, base keyMaterial, evID string, evSalt, 
 		// empty strings and nil/empty byte slices carry nothing to protect
 		return ""
 	}
-	for name, got := range map[string]string{"S": s, "B": string(b)} {
+	encs := map[string]string{"S": s, "B": string(b)}
+	for k, v := range moreEnc {
+		encs[k] = v
+	}
+	for _, name := range sortedKeys(encs) {
+		got := encs[name]
 		pt, err := shapes.Decrypt(w, got)
 		if err != nil {
 			return fmt.Sprintf("field %s does not decrypt under the wrapper in force (event id %q): %v (value %q)", name, evID, err, trunc(got))
@@ -107,12 +163,26 @@ func verify(out interface{}, val string, base keyMaterial, evID string, evSalt, 
 		}
 	}
 	want := shapes.HmacOf(kb, salt, info, []byte(val))
-	for name, got := range map[string]string{"HS": hs, "HB": string(hb), "HS2": hs2} {
+	macs := map[string]string{"HS": hs, "HB": string(hb), "HS2": hs2}
+	for k, v := range moreMac {
+		macs[k] = v
+	}
+	for _, name := range sortedKeys(macs) {
+		got := macs[name]
 		if got != want {
 			return fmt.Sprintf("field %s = %q, HMAC-SHA256 of the original under the key/salt/info in force (event id %q salt %q info %q) is %q", name, trunc(got), evID, salt, info, want)
 		}
 	}
 	return ""
+}
+
+func sortedKeys(m map[string]string) []string {
+	var ks []string
+	for k := range m {
+		ks = append(ks, k)
+	}
+	sort.Strings(ks)
+	return ks
 }
 
 func trunc(s string) string {
@@ -164,7 +234,7 @@ func keyContexts() *hk.Result {
 					id         string
 					salt, info []byte
 				}{{"ev-1", nil, nil}, {"ev-1", []byte("ev-salt"), nil}, {"ev-1", nil, []byte("ev-info")}, {"ev-2", []byte("ev-salt"), []byte("ev-info")}, {"ev-3", []byte{}, []byte{}}, {"", nil, nil}} {
-					ep := &ewPayload{id: ev.id, salt: ev.salt, info: ev.info, S: val, B: []byte(val), HS: val, HB: []byte(val), HS2: val}
+					ep := newEwPayload(ev.id, ev.salt, ev.info, val)
 					out, err := mk().Process(ctx, &el.Event{Type: "t", Payload: ep})
 					name := fmt.Sprintf("event-wrapper id=%q evsalt=%q evinfo=%q val=%q salt=%q info=%q", ev.id, ev.salt, ev.info, trunc(val), fsalt, finfo)
 					if ev.id == "" {
@@ -283,7 +353,7 @@ func (in *rotInst) Apply(op string) (string, string) {
 		return "event", verify(out.Payload, val, in.cur, "", nil, nil)
 	case "event-ew":
 		val := "value-B"
-		p := &ewPayload{id: "ev-9", salt: []byte("es"), S: val, B: []byte(val), HS: val, HB: []byte(val), HS2: val}
+		p := newEwPayload("ev-9", []byte("es"), nil, val)
 		out, err := in.f.Process(ctx, &el.Event{Type: "t", Payload: p})
 		if err != nil || out == nil {
 			return "", fmt.Sprintf("Process failed: %v", err)
